@@ -65,7 +65,7 @@ def run(R):
     R.drive("c13p", "out=" + tr3, "cases=" + cf2, timeout=3000)
     R.validate("Trace_PRoundTrip", tr3, reset_events=("PSchema",), timeout=3000)
     tr4 = os.path.join(R.scratch, "c13p-b.ndjson")
-    R.drive("c13p", "out=" + tr4, "n=%d" % (300 if q else 15000), "seed=%d" % R.seed, timeout=3000)
+    R.drive("c13p", "out=" + tr4, "n=%d" % (300 if q else 5000), "seed=%d" % R.seed, timeout=3000)
     R.validate("Trace_PRoundTrip", tr4, reset_events=("PSchema",), timeout=3000)
     R.extra_cov["tlc_proto_messages_replayed"] = len(pcases)
     return vlib.finish(R, "model_checking", RULE, ASSUME)
